@@ -178,7 +178,9 @@ def run(case):
     # ---- history: two calls on the *same* tracer dictionaries with in-place updates in between
     if case.get('second_call'):
         shared = {t: dict(v) for t, v in c['tracers'].items()}
-        resA, excA, _ = H.run(lambda: HR.flatten(HR.call(G, c, T, tracers=shared)), dict(s, seed=s.get('seed', 0) + 3))
+        # ... and on the same halo / particle arrays and parameter dictionary (a fitting loop builds them once)
+        inputs = HC.build_inputs(c)
+        resA, excA, _ = H.run(lambda: HR.flatten(HR.call(G, c, T, tracers=shared, inputs=inputs)), dict(s, seed=s.get('seed', 0) + 3))
         if excA is not None:
             violation(out, 'raises:' + type(excA).__name__, site + ':first-call', repr(excA)[:300])
             return out
@@ -192,7 +194,7 @@ def run(case):
                     else:
                         shared[t][k_] = v_
                         c4['tracers'][t][k_] = v_
-        resB, excB, _ = H.run(lambda: HR.flatten(HR.call(G, c4, T, tracers=shared)), dict(s, seed=s.get('seed', 0) + 4))
+        resB, excB, _ = H.run(lambda: HR.flatten(HR.call(G, c4, T, tracers=shared, inputs=inputs)), dict(s, seed=s.get('seed', 0) + 4))
         if excB is not None:
             violation(out, 'raises:' + type(excB).__name__, site + ':second-call', repr(excB)[:300])
             return out
